@@ -41,6 +41,18 @@ function g4(s, u):
     return arrayNew(1, arrayNew(w))
 endfunction
 """
+pointless = """
+items = arrayNew()
+verbose = true
+verbose && arrayPush(items, 1)
+verbose || systemLog('quiet')
+1 + 2
+(items)
+function ff(aa):
+    aa && arrayPush(items, aa)
+    -aa
+endfunction
+"""
 # expected lists written from the property statement: per scope, unknown = jump targets without a definition, unused =
 # definitions nothing jumps to, redefinition = repeated definitions; used-before-assignment per function
 expect = {
@@ -48,6 +60,9 @@ expect = {
              'Unused label "other" in function "f2" (index 1)', 'Unknown label "again" in function "f2" (index 0)',
              'Unused global label "unused" (index 6)', 'Unknown global label "nowhere" (index 5)'],
     variables: ['Variable "x" of function "g2" used (index 0) before assignment (index 1)'],
+    # a statement is pointless only if deleting it changes nothing: one that calls a function anywhere inside is not
+    pointless: ['Pointless global statement (index 4)', 'Pointless global statement (index 5)',
+                'Pointless statement in function "ff" (index 1)'],
 }
 bad = []
 for text, want in expect.items():
